@@ -42,8 +42,31 @@ pub fn extra_evidence(_prop: &str, _tier: &str) -> Option<Value> {
     None
 }
 
+/// History engine + crash engine behind one property (cases carrying a "mode" go to crashx).
+struct Multi {
+    hist: histx::HistX,
+    crash: crashx::CrashX,
+}
+
+impl Engine for Multi {
+    fn plan(&self, prop: &str, tier: &str) -> engine::Plan {
+        self.hist.plan(prop, tier)
+    }
+    fn run(&mut self, prop: &str, case: &Value) -> engine::Outcome {
+        if case.get("mode").is_some() {
+            self.crash.run(prop, case)
+        } else {
+            self.hist.run(prop, case)
+        }
+    }
+}
+
 fn make_engine(prop: &str) -> Option<Box<dyn Engine>> {
     match prop {
+        "C16" | "C19" => Some(Box::new(Multi {
+            hist: histx::HistX::new(),
+            crash: crashx::CrashX::new(),
+        })),
         "C01" | "C02" | "C05" | "C06" | "C09" | "C10" | "C11" | "C12" | "C13" | "C16" | "C19" => Some(Box::new(histx::HistX::new())),
         "C03" | "C04" | "C14" | "C17" => Some(Box::new(crashx::CrashX::new())),
         "C15" | "C20" => Some(Box::new(schedx::SchedX::new())),
